@@ -65,6 +65,8 @@ struct State {
     last: Option<Tid>,
     senders: usize,
     queued_msgs: usize,
+    /// set by `decide` when the system is quiescent and no controlled thread is enabled (nobody can ever move again)
+    nobody_enabled: bool,
 }
 
 static STATE: Mutex<Option<State>> = Mutex::new(None);
@@ -92,6 +94,7 @@ fn init_state() -> State {
         last: None,
         senders: 0,
         queued_msgs: 0,
+        nobody_enabled: false,
     }
 }
 
@@ -109,12 +112,31 @@ pub fn init() {
     // watchdog: an infeasible or stuck run must never look like a verdict
     if active() {
         std::thread::spawn(|| {
-            std::thread::sleep(std::time::Duration::from_secs(30));
-            let mut g = lock();
-            let s = g.as_mut().unwrap();
-            s.trace.push("{\"ev\":\"stuck\"}".to_string());
-            flush(s);
-            std::process::exit(97);
+            let t0 = std::time::Instant::now();
+            let (mut stable, mut seen_len) = (0u32, usize::MAX);
+            loop {
+                std::thread::sleep(std::time::Duration::from_millis(50));
+                let mut g = lock();
+                let s = g.as_mut().unwrap();
+                // a deadlock of the program itself is an observation (exit 96): quiescent, nobody enabled, and nothing
+                // has moved for a second
+                if s.nobody_enabled && s.trace.len() == seen_len {
+                    stable += 1;
+                } else {
+                    stable = 0;
+                    seen_len = s.trace.len();
+                }
+                if stable >= 20 {
+                    s.trace.push("{\"ev\":\"deadlock\"}".to_string());
+                    flush(s);
+                    std::process::exit(96);
+                }
+                if t0.elapsed() > std::time::Duration::from_secs(30) {
+                    s.trace.push("{\"ev\":\"stuck\"}".to_string());
+                    flush(s);
+                    std::process::exit(97);
+                }
+            }
         });
     }
 }
@@ -125,7 +147,7 @@ fn active() -> bool {
 
 /// number of formatter threads of the pool (the pool has one more thread, taken by the output job)
 pub fn set_workers(pool_threads: usize) {
-    lock().as_mut().unwrap().workers = pool_threads.saturating_sub(1).max(1);
+    lock().as_mut().unwrap().workers = pool_threads.saturating_sub(1);
 }
 
 /// Called in the main thread right before a formatting job is handed to the pool.
@@ -185,6 +207,7 @@ fn status_mut(s: &mut State, t: Tid) -> &mut St {
 
 /// If the system is quiescent and nobody holds a grant, pick the next thread.
 fn decide(s: &mut State) {
+    s.nobody_enabled = false;
     if !s.active || s.granted.is_some() {
         return;
     }
@@ -214,6 +237,7 @@ fn decide(s: &mut State) {
         enabled.push(Tid::Out);
     }
     if enabled.is_empty() {
+        s.nobody_enabled = true;
         return;
     }
     // canonical order: the thread that ran last first (continuing it is not a preemption), then M, J0, J1, ..., O
